@@ -8,7 +8,7 @@
    is accepted.  That inclusion is explored by enumeration of structures on the library and on
    the extracted model (stream spec) and is therefore bounded in the number of repetitions. *)
 
-From SwiftMT Require Import Base.Bytes Engine.Layout Engine.Tokens Engine.Facts Engine.Replay Engine.Instance.
+From SwiftMT Require Import Base.Bytes Engine.Layout Engine.Tokens Engine.Facts Engine.Replay Engine.Instance Engine.Extract Engine.Factor Engine.FactorInstance.
 
 (* one accepted message of a structure => every message with the same tags whose contents the
    same field parsers accept is accepted, with the same field types, letters and tags in order *)
@@ -43,5 +43,16 @@ Proof.
   exact (fun T L H fparse fuel toks its Hr => proj1 (accept_exact fparse L fuel toks its (layout_wf T L H) Hr)).
 Qed.
 
+(* byte level: an accepted canonical text is reproduced byte for byte from the parsed items *)
+Theorem C03_accepted_is_reproduced_bytes : forall T L, In (T, L) all_layouts ->
+  forall crlf fparse fuel w toks its, aws w = true -> forallb tok_ok toks = true ->
+  brun fparse fuel L (w ++ render crlf toks) = Accept its ->
+  w ++ render crlf (map tok_of its) = w ++ render crlf toks.
+Proof.
+  intros T L H crlf fparse fuel w toks its Hw Ht Hr.
+  exact (proj2 (proj2 (accept_exact_bytes T L H crlf fparse fuel w toks its Hw Ht Hr))).
+Qed.
+
 Print Assumptions C03_structure_decides_partial.
 Print Assumptions C03_accepted_is_reproduced.
+Print Assumptions C03_accepted_is_reproduced_bytes.
